@@ -155,6 +155,7 @@ fn run(case: &Case, cx: &mut Cx) -> CaseResult {
                     continue;
                 }
             }
+            crate::engine::heartbeat();
             let res = check_plan(&base, sc, cx, Plan::FailAtKey { key: l.key.clone(), kind }, &mut n);
             evals += 1;
             if nontrivial_key(l) {
